@@ -306,6 +306,45 @@ impl Engine for SeqEngine {
         } else {
             (store, keys, ops)
         };
+        // "full" family (own tape): a device of 8-14 data blocks and records of 1-3 blocks, so that
+        // flushes run out of space in the middle of a batch; the application reacts the way one
+        // would - deletes something (written or not), flushes again, writes on - and the run goes
+        // on across up to three such episodes (run_once). The end phases (everything deleted: one
+        // free run, nothing on the device, refill) then see what the unusual exits left behind.
+        let mut fu = Tape::fresh(mix(seed, 0xF011));
+        let (store, keys, ops) = if matches!(property, "C01" | "C05" | "C10") && store.persistent && !p.differential && !knobs.contains_key("huge") && fu.chance(1, 8) {
+            let blocks = 8 + fu.below(7) as u64;
+            let n = 4 + fu.below(5) as usize;
+            let keys: Vec<Vec<u8>> = (0..n).map(|i| format!("fu{i}").into_bytes()).collect();
+            let val = |fu: &mut Tape| Val { len: match fu.below(4) { 0 => 100 + fu.below(3000) as usize, 1 => 4096 + fu.below(3000) as usize, 2 => 8192 + fu.below(3000) as usize, _ => 5 + fu.below(60) as usize }, kind: ValKind::Plain };
+            let mut ops = Vec::new();
+            // fill beyond the capacity, then alternate between making room and using it
+            for key in 0..n {
+                ops.push(Op::Insert { key, val: val(&mut fu), ts: Ts::Auto, ttl: 0, bytes: fu.chance(1, 2) });
+                if fu.chance(1, 3) {
+                    ops.push(Op::Flush);
+                }
+            }
+            ops.push(Op::Flush);
+            for _ in 0..6 + fu.below(10) {
+                let key = fu.below(n as u32) as usize;
+                match fu.below(10) {
+                    0..=3 => ops.push(Op::Delete { key, ts: Ts::Auto }),
+                    4..=6 => ops.push(Op::Insert { key, val: val(&mut fu), ts: Ts::Auto, ttl: 0, bytes: false }),
+                    7 => ops.push(Op::Get { key, bytes: false }),
+                    8 => ops.push(Op::Settle),
+                    _ => ops.push(Op::Reopen),
+                }
+                if fu.chance(1, 2) {
+                    ops.push(Op::Flush);
+                }
+            }
+            ops.push(Op::Flush);
+            knobs.insert("full".to_string(), 1);
+            (StoreCfg { data_blocks: blocks, ttl: false, max_memory: None, ..store }, keys, ops)
+        } else {
+            (store, keys, ops)
+        };
         Scenario {
             engine: "seq".into(),
             property: property.into(),
@@ -404,6 +443,7 @@ fn run_once(
     let mut range_nonempty = 0u64;
     let mut cache_served = 0u64;
     let mut stopped = false;
+    let mut oos_episodes = 0u32;
 
     'ops: for (i, op) in sc.clients[0].iter().enumerate() {
         match op {
@@ -506,6 +546,13 @@ fn run_once(
                     };
                     match verdict {
                         Ok(()) => {
+                            // the application carries on: what follows (deletes, rewrites, flushes,
+                            // clean reopens) runs on a device that is or was full - up to three times
+                            oos_episodes += 1;
+                            report.count("out_of_space_episodes", 1);
+                            if oos_episodes < 3 {
+                                continue 'ops;
+                            }
                             report.count("stopped_out_of_space", 1);
                             stopped = true;
                         }
